@@ -56,7 +56,7 @@ def workload_candidates(scn):
             del c["procs"][i]["crash"]
             out.append(c)
     cfg = scn.get("cfg", {})
-    for flag in ("trace", "pid_reuse", "audit", "set_order"):
+    for flag in ("stall", "trace", "pid_reuse", "audit", "set_order"):
         if cfg.get(flag):
             c = copy.deepcopy(scn)
             c["cfg"][flag] = False
